@@ -124,6 +124,13 @@ int varintDictBuild(varintDict *dict, const uint64_t *values, size_t count) {
         }
     }
 
+    /* The decoders reject dictionaries above VARINT_DICT_MAX_SIZE entries, so
+     * an encoding built from a larger one could never be read back */
+    if (unique > VARINT_DICT_MAX_SIZE) {
+        free(sorted);
+        return -1;
+    }
+
     /* Ensure dictionary has enough capacity */
     if (unique > dict->capacity) {
         uint64_t *newValues =
